@@ -14,6 +14,11 @@ Section Measure.
   Variable kappa : nat.
   Local Notation mu := (meas stop kappa).
   Local Notation mul := (meas_list stop kappa).
+  (** The names the rewriter may dereference on the hook namespace, and what a callee built with one weighs:
+      the weight of one reference (for the plain count, where a member on the namespace has no weight of its
+      own, every name is acceptable). *)
+  Variable okname : string -> Prop.
+  Hypothesis mu_callee : forall name span, okname name -> mu (dd_callee name span) = kappa.
 
 Lemma ns_node t cs : plain (Node t cs) = true -> stop_kind (Node t cs) = false -> mu (Node t cs) = mul cs.
 Proof.
@@ -76,8 +81,8 @@ Proof. unfold mk_assign, mk. rewrite ns_node by reflexivity. simpl. lia. Qed.
 Lemma ns_mk_bin span op l r : mu (mk_bin span op l r) = mu l + mu r.
 Proof. unfold mk_bin, mk. rewrite ns_node by reflexivity. simpl. lia. Qed.
 
-Lemma ns_mk_member span o p : mu (mk_member span o p) = mu o + mu p.
-Proof. unfold mk_member, mk. rewrite ns_node by reflexivity. simpl. lia. Qed.
+Lemma ns_mk_member span o p : is_ns_ident o = false -> mu (mk_member span o p) = mu o + mu p.
+Proof. intros NS. unfold mk_member, mk. rewrite ns_node; [simpl; lia | reflexivity | cbn; exact NS]. Qed.
 
 Lemma ns_mk_paren span e : mu (mk_paren span e) = mu e.
 Proof. unfold mk_paren, mk. rewrite ns_node by reflexivity. simpl. lia. Qed.
@@ -107,19 +112,20 @@ Lemma ns_push_arg x a : ns_acc (push_arg x a) = ns_acc a + mu x.
 Proof. unfold ns_acc, push_arg. cbn [a_assigns a_args]. rewrite ns_list_app. simpl. lia. Qed.
 
 (** A hook call: exactly one reference more than what it wraps. *)
-Lemma ns_dd_callee name span : mu (dd_callee name span) = kappa.
-Proof. unfold dd_callee. rewrite ns_mk_member. cbn. lia. Qed.
+Lemma ns_dd_callee name span : okname name -> mu (dd_callee name span) = kappa.
+Proof. apply mu_callee. Qed.
 
-Lemma ns_dd_call e args name span : mu (dd_call e args name span) = kappa + mu e + mul args.
-Proof. unfold dd_call. rewrite ns_mk_call, ns_dd_callee, ns_list_cons, ns_mk_arg. lia. Qed.
+Lemma ns_dd_call e args name span : okname name -> mu (dd_call e args name span) = kappa + mu e + mul args.
+Proof. intros OK. unfold dd_call. rewrite ns_mk_call, (ns_dd_callee _ _ OK), ns_list_cons, ns_mk_arg. lia. Qed.
 
-Lemma ns_dd_paren e a name span : mu (dd_paren e a name span) = kappa + mu e + ns_acc a.
+Lemma ns_dd_paren e a name span : okname name -> mu (dd_paren e a name span) = kappa + mu e + ns_acc a.
 Proof.
+  intros OK. pose proof (fun e args => ns_dd_call e args _ span OK) as ns_dd_call'.
   unfold dd_paren, ns_acc. destruct (a_assigns a) as [|x xs] eqn:E.
-  - rewrite ns_dd_call. simpl. lia.
+  - rewrite ns_dd_call'. simpl. lia.
   - rewrite ns_mk_paren, ns_mk_seq, ns_list_app.
     change (mul [dd_call e (a_args a) name span]) with (mu (dd_call e (a_args a) name span) + 0).
-    rewrite ns_dd_call. lia.
+    rewrite ns_dd_call'. lia.
 Qed.
 
 (** ** Allocation and operand handling conserve the measure *)
@@ -280,46 +286,74 @@ Qed.
 Definition ident_clean (e : node) : Prop := is_ident e = true -> mu e = 0.
 
 Theorem binary_transform_ns c lo hi opn l r p out p' :
-  ident_clean l -> ident_clean r ->
+  okname (plus_name c) -> ident_clean l -> ident_clean r ->
   binary_transform c (Node (K KBin lo hi) [opn; l; r]) p = (Some out, p') ->
   mu out = kappa + mu (Node (K KBin lo hi) [opn; l; r]).
 Proof.
-  intros Hl Hr. unfold binary_transform.
+  intros OKN Hl Hr. unfold binary_transform.
   destruct (replace_expr c l (get_ident_mode r) (lo, hi) IKExpr false acc0 p) as [[l' a1] p1] eqn:E1.
   destruct (replace_expr c r (get_ident_mode l') (lo, hi) IKExpr false a1 p1) as [[r' a2] p2] eqn:E2.
   destruct (existsb arg_is_nonlit (a_args a2)); [|discriminate].
   intros H; inversion H; subst.
   apply replace_expr_operand_ns in E1; [|intros _; exact Hl].
   apply replace_expr_operand_ns in E2; [|intros _; exact Hr].
-  rewrite ns_dd_paren. rewrite !(ns_node (K KBin lo hi)) by reflexivity.
+  rewrite ns_dd_paren by exact OKN. rewrite !(ns_node (K KBin lo hi)) by reflexivity.
   cbn [mul fold_right]. rewrite ns_acc0 in E1. lia.
 Qed.
 
 Theorem template_transform_ns c e p out p' :
+  okname (tpl_name c) ->
   template_transform c e p = (Some out, p') -> mu out = kappa + mu e.
 Proof.
-  unfold template_transform. destruct e as [[k lo hi| | | | | |] cs]; try discriminate.
+  intros OKN. unfold template_transform. destruct e as [[k lo hi| | | | | |] cs]; try discriminate.
   destruct k; try discriminate.
   destruct cs as [|[[| | | | | |] es] [|quasis [|? ?]]]; try discriminate.
   destruct (tpl_replace c es acc0 p) as [[es' a] p1] eqn:E.
   intros H; inversion H; subst. apply tpl_replace_ns in E. rewrite ns_acc0 in E.
-  rewrite ns_dd_paren. rewrite !(ns_node (K KTpl lo hi)) by reflexivity.
+  rewrite ns_dd_paren by exact OKN. rewrite !(ns_node (K KTpl lo hi)) by reflexivity.
   cbn [mul fold_right]. rewrite !(ns_node Lst) by reflexivity. lia.
+Qed.
+
+(** Temporaries and literals are not the hook namespace. *)
+Lemma temp_ident_not_ns c n : is_ns_ident (mk_ident DUMMY (temp_name c n)) = false.
+Proof. unfold mk_ident, mk. cbn. apply (temp_name_not_ns c n). Qed.
+
+Lemma lit_not_ns e : is_lit e = true -> is_ns_ident e = false.
+Proof.
+  destruct e as [[k lo hi| | | | | |] cs]; try reflexivity. destruct k; try reflexivity. discriminate.
+Qed.
+
+Lemma get_temporal_not_ns c operand span ik a p id a' p' :
+  get_temporal c operand span ik a p = (id, a', p') ->
+  is_ns_ident (match id with Some i => i | None => operand end) = false /\ (id = None -> is_lit operand = true).
+Proof.
+  intros H. apply get_temporal_spec in H. destruct H as [(L & -> & _) | (L & -> & _)].
+  - split; [apply lit_not_ns; exact L | intros _; exact L].
+  - split; [apply temp_ident_not_ns | discriminate].
+Qed.
+
+Lemma get_ident_not_ns c operand span ik a p id a' p' :
+  get_ident c operand span ik a p = (id, a', p') ->
+  is_ns_ident (match id with Some i => i | None => operand end) = false /\ (id = None -> is_lit operand = true).
+Proof.
+  unfold get_ident. destruct (get_temporal c operand span ik a p) as [[i a1] p1] eqn:E.
+  intros H; inversion H; subst. eapply get_temporal_not_ns; exact E.
 Qed.
 
 (** ** Calls *)
 Lemma replace_callee_and_args_ns c lo hi cx callee args targs ident_callee coa a p call' a' p' :
+  match ident_callee with Some id => is_ns_ident id = false | None => True end ->
   replace_callee_and_args c (Node (K KCall lo hi) [cx; callee; Node Lst args; targs]) ident_callee coa a p = (call', a', p') ->
   mu call' + ns_acc a' =
     mu cx + mu targs + mul args + ns_acc a +
     match ident_callee with Some id => mu id | None => mu callee end.
 Proof.
-  unfold replace_callee_and_args.
+  intros NSI. unfold replace_callee_and_args.
   destruct (replace_args c args (lo, hi) _ a p) as [[args1 a1] p1] eqn:E.
   intros H; inversion H; subst. apply replace_args_ns in E.
   rewrite (ns_node (K KCall lo hi)) by reflexivity. cbn [mul fold_right].
   rewrite (ns_node Lst) by reflexivity.
-  destruct ident_callee as [id|]; [rewrite ns_mk_member, ns_mk_ident_name|]; lia.
+  destruct ident_callee as [id|]; [rewrite (ns_mk_member _ _ _ NSI), ns_mk_ident_name|]; lia.
 Qed.
 
 Lemma ns_insert_this lo hi cx callee args targs this :
@@ -342,14 +376,15 @@ Qed.
 (** [replace_with_member] on a call of the usual shape: one reference more than the receiver, the
     member expression handed over (if any), the arguments and the call's scalar fields. *)
 Lemma replace_with_member_ns c recv method mspan lo hi cx callee args targs member_opt coa p out tag p' :
+  (forall name m, csi_get c name = Some m -> okname (m_dst m)) ->
   (forall m, member_opt = Some m -> is_lit m = false) ->
   replace_with_member c recv method mspan (Node (K KCall lo hi) [cx; callee; Node Lst args; targs]) member_opt coa p
     = (Some (out, tag), p') ->
   mu out = kappa + mu cx + mu targs + mul args + mu recv +
                  match member_opt with Some m => mu m | None => 0 end.
 Proof.
-  intros Hm. unfold replace_with_member. destruct (csi_get c method) as [csi|]; [|discriminate].
-  cbn [span_of].
+  intros OKC Hm. unfold replace_with_member. destruct (csi_get c method) as [csi|] eqn:CG; [|discriminate].
+  apply OKC in CG. cbn [span_of].
   destruct (get_temporal c recv (lo, hi) IKExpr acc0 p) as [[id_opt a1] p1] eqn:E1.
   set (r0 := match id_opt with Some i => i | None => recv end) in *.
   set (member := match member_opt with Some m => m | None => mk_member (lo, hi) r0 (mk_ident_name mspan method) end) in *.
@@ -374,39 +409,47 @@ Proof.
   { destruct callee_opt as [i|]; [exact M2|].
     unfold get_ident in E2. destruct (get_temporal c member (lo, hi) IKExpr a1 p1) as [[i2 a3] p3] eqn:T.
     inversion E2; subst. unfold get_temporal in T. rewrite ML in T. unfold next_ident in T. cbn [fst snd] in T. inversion T. }
+  assert (NR0 : is_ns_ident r0 = false) by (unfold r0; eapply get_temporal_not_ns; exact E1).
+  assert (NCE : is_ns_ident (match callee_opt with Some i => i | None => recv end) = false).
+  { destruct (get_ident_not_ns _ _ _ _ _ _ _ _ _ E2) as [X Y]. destruct callee_opt as [i|]; [exact X|].
+    rewrite (Y eq_refl) in ML. discriminate ML. }
   pose proof (replace_callee_shape _ _ _ _ _ _ _ _ _ _ _ _ _ _ E3) as (callee' & args' & ->).
-  apply replace_callee_and_args_ns in E3. rewrite ns_push_arg, ns_mk_arg, R0, CE in E3.
-  rewrite ns_dd_paren, ns_insert_this, R0.
+  apply replace_callee_and_args_ns in E3; [|exact NCE]. rewrite ns_push_arg, ns_mk_arg, R0, CE in E3.
+  rewrite ns_dd_paren by exact CG. rewrite ns_insert_this, R0.
   assert (MM : mu member = match member_opt with Some m => mu m | None => 0 end).
-  { unfold member. destruct member_opt as [m|]; [reflexivity|]. rewrite ns_mk_member, ns_mk_ident_name, R0. reflexivity. }
+  { unfold member. destruct member_opt as [m|]; [reflexivity|]. rewrite ns_mk_member by exact NR0. rewrite ns_mk_ident_name, R0. reflexivity. }
   lia.
 Qed.
 
 Lemma replace_spread_ns c method lo hi cx callee args targs member coa p out tag p' :
+  (forall name m, csi_get c name = Some m -> okname (m_dst m)) ->
   replace_spread_with_member c method (Node (K KCall lo hi) [cx; callee; Node Lst args; targs]) member coa p
     = (Some (out, tag), p') ->
   mu out = kappa + mu cx + mu targs + mul args + mu member.
 Proof.
-  unfold replace_spread_with_member. destruct (csi_get c method) as [csi|]; [|discriminate]. cbn [span_of].
+  intros OKC. unfold replace_spread_with_member. destruct (csi_get c method) as [csi|] eqn:CG; [|discriminate].
+  apply OKC in CG. cbn [span_of].
   destruct (get_ident c member (lo, hi) IKExpr acc0 p) as [[callee_opt a1] p1] eqn:E1.
   destruct callee_opt as [cal|]; [|discriminate].
   destruct (replace_callee_and_args c _ (Some cal) (Some coa) a1 p1) as [[call' a2] p2] eqn:E2.
   intros H; inversion H; subst.
+  pose proof (proj1 (get_ident_not_ns _ _ _ _ _ _ _ _ _ E1)) as NCAL.
   apply get_ident_ns in E1. cbn zeta in E1. destruct E1 as [X Y]. rewrite ns_acc0 in X.
-  apply replace_callee_and_args_ns in E2. rewrite ns_dd_paren. lia.
+  apply replace_callee_and_args_ns in E2; [|exact NCAL]. rewrite ns_dd_paren by exact CG. lia.
 Qed.
 
 Lemma replace_without_callee_ns c callee_ident lo hi cx callee args targs p out tag p' :
+  (forall name m, csi_get c name = Some m -> okname (m_dst m)) ->
   mu callee_ident = 0 -> callee = callee_ident ->
   replace_without_callee c callee_ident (Node (K KCall lo hi) [cx; callee; Node Lst args; targs]) p = (Some (out, tag), p') ->
   mu out = kappa + mu cx + mu targs + mul args + mu callee.
 Proof.
-  intros Hc ->. unfold replace_without_callee. destruct (ident_sym callee_ident) as [name|]; [|discriminate].
-  destruct (csi_get c name) as [csi|]; [|discriminate]. destruct (m_awc csi); [|discriminate]. cbn [span_of].
+  intros OKC Hc ->. unfold replace_without_callee. destruct (ident_sym callee_ident) as [name|]; [|discriminate].
+  destruct (csi_get c name) as [csi|] eqn:CG; [|discriminate]. apply OKC in CG. destruct (m_awc csi); [|discriminate]. cbn [span_of].
   destruct (replace_callee_and_args c _ None None _ p) as [[call' a1] p1] eqn:E.
-  intros H; inversion H; subst. apply replace_callee_and_args_ns in E.
+  intros H; inversion H; subst. apply replace_callee_and_args_ns in E; [|exact I].
   rewrite !ns_push_arg, !ns_mk_arg, ns_acc0, Hc in E.
-  rewrite ns_mk_ident in E by reflexivity. rewrite ns_dd_paren. lia.
+  rewrite ns_mk_ident in E by reflexivity. rewrite ns_dd_paren by exact CG. lia.
 Qed.
 
 (** Scalar fields of a call (syntax context, type arguments) carry no reference. *)
@@ -416,19 +459,21 @@ Lemma arg_plain_ns spr e : mu (Node Obj [spr; e]) = mu spr + mu e.
 Proof. rewrite ns_node by reflexivity. simpl. lia. Qed.
 
 Theorem call_transform_ns c lo hi cx callee args targs p out tag p' :
+  (forall name m, csi_get c name = Some m -> okname (m_dst m)) ->
+  is_ns_member callee = false ->
   call_fields_ok cx targs ->
   (is_ident callee = true -> mu callee = 0) ->
   call_transform c (Node (K KCall lo hi) [cx; callee; Node Lst args; targs]) p = (Some (out, tag), p') ->
   mu out = kappa + mu (Node (K KCall lo hi) [cx; callee; Node Lst args; targs]).
 Proof.
-  intros [Hcx Htg] Hid. unfold call_transform. cbn [call_parts].
+  intros OKC NSM [Hcx Htg] Hid. unfold call_transform. cbn [call_parts].
   rewrite (ns_node (K KCall lo hi)) by reflexivity. cbn [mul fold_right].
   rewrite (ns_node Lst) by reflexivity.
   destruct (member_parts callee) as [[obj prop]|] eqn:Em.
   - assert (Cm : mu callee = mu obj + mu prop).
     { unfold member_parts in Em. destruct callee as [[k l h| | | | | |] ccs]; try discriminate.
       destruct k; try discriminate. destruct ccs as [|o [|pr [|? ?]]]; try discriminate.
-      inversion Em; subst. rewrite ns_node by reflexivity. simpl. lia. }
+      inversion Em; subst. rewrite ns_node; [simpl; lia | reflexivity | exact NSM]. }
     destruct (ident_name_sym prop) as [name|] eqn:Ep; [|discriminate].
     assert (Pp : mu prop = 0).
     { apply ns_leaf. unfold ident_name_sym in Ep. destruct prop as [[k l h| | | | | |] pcs]; try discriminate.
@@ -438,7 +483,7 @@ Proof.
                replace_with_member c obj name (span_of prop) (Node (K KCall lo hi) [cx; callee; Node Lst args; targs]) member_opt coa p
                  = (Some (out0, tag0), p0) ->
                mu out0 = kappa + (mu cx + (mu callee + (mul args + (mu targs + 0))))).
-    { intros mo coa out0 tag0 p0 -> H0. apply replace_with_member_ns in H0; [|intros m X; discriminate X]. lia. }
+    { intros mo coa out0 tag0 p0 -> H0. apply replace_with_member_ns in H0; [|exact OKC|intros m X; discriminate X]. lia. }
     destruct (is_lit obj).
     + destruct (allows_literal_callers c name); [|discriminate]. intros H. eapply W; [reflexivity | exact H].
     + destruct (receiver_kind_ok obj); [intros H; eapply W; [reflexivity | exact H]|].
@@ -450,12 +495,12 @@ Proof.
         destruct (prototype_method obj) as [[method mspan]|]; [|discriminate]. cbn [call_parts].
         destruct args as [|this rest]; [discriminate|].
         destruct (arg_is_spread this) eqn:Es.
-        -- intros H. apply replace_spread_ns in H. rewrite H. lia.
+        -- intros H. apply replace_spread_ns in H; [|exact OKC]. rewrite H. lia.
         -- destruct (invalid_args name (this :: rest)); [discriminate|].
            destruct (arg_expr this) as [this_expr|] eqn:Et; [|discriminate].
            destruct (is_lit this_expr && _); [discriminate|].
            unfold mk_call, mk. cbn [fst snd]. intros H.
-           apply replace_with_member_ns in H.
+           apply replace_with_member_ns in H; [|exact OKC|].
            ++ rewrite H. unfold nL.
               assert (Tn : mu this = mu this_expr).
               { unfold arg_expr in Et. destruct this as [[| | | | | |] tcs]; try discriminate.
@@ -469,7 +514,7 @@ Proof.
       * destruct (negb (member_prop_is_prototype obj)); [|discriminate].
         intros H; eapply W; [reflexivity | exact H].
   - destruct (is_ident callee) eqn:Ei; [|discriminate].
-    intros H. apply replace_without_callee_ns in H; [|apply Hid; reflexivity|reflexivity]. lia.
+    intros H. apply replace_without_callee_ns in H; [|exact OKC|apply Hid; reflexivity|reflexivity]. lia.
 Qed.
 
 (** ** Compound assignment *)
@@ -501,10 +546,11 @@ Proof.
 Qed.
 
 Lemma hoist_member_ns c t span a p t' a' p' :
+  is_ns_member t = false ->
   hoist_member c t span a p = Some (t', a', p') ->
   mu t' + ns_acc a' = mu t + ns_acc a /\ a_args a' = a_args a.
 Proof.
-  unfold hoist_member. destruct t as [[k lo hi| | | | | |] cs]; try discriminate.
+  intros NSM. unfold hoist_member. destruct t as [[k lo hi| | | | | |] cs]; try discriminate.
   destruct k; try discriminate.
   - destruct cs as [|obj [|prop [|? ?]]]; try discriminate.
     destruct (if is_ident obj || is_kind KThis obj then (obj, a, p)
@@ -517,7 +563,13 @@ Proof.
       destruct (get_temporal c obj span IKExpr a p) as [[id a3] p3] eqn:T. inversion E1; subst.
       pose proof (get_temporal_args _ _ _ _ _ _ _ _ _ T) as B. apply get_temporal_ns in T. destruct T as [Y _]. auto. }
     destruct O as [O B].
-    rewrite !(ns_node (K KMember lo hi)) by reflexivity. cbn [mul fold_right]. split; [lia | congruence].
+    assert (N1 : is_ns_ident obj1 = false).
+    { cbn in NSM. destruct (is_ident obj || is_kind KThis obj); [inversion E1; subst; exact NSM|].
+      destruct (get_temporal c obj span IKExpr a p) as [[id a3] p3] eqn:T. inversion E1; subst.
+      eapply get_temporal_not_ns; exact T. }
+    rewrite (ns_node (K KMember lo hi) [obj1; prop1]); [|reflexivity|cbn; exact N1].
+    rewrite (ns_node (K KMember lo hi) [obj; prop]); [|reflexivity|exact NSM].
+    cbn [mul fold_right]. split; [lia | congruence].
   - destruct cs as [|obj [|prop [|? ?]]]; try discriminate.
     destruct (hoist_key c prop span a p) as [[prop1 a2] p2] eqn:E.
     intros H; inversion H; subst. apply hoist_key_ns in E. destruct E as [X A].
@@ -534,15 +586,16 @@ Proof.
 Qed.
 
 Lemma hoist_target_ns c lhs span p lhs' hoisted p' :
+  is_ns_member (if is_kind KParen lhs then peel_parens lhs else lhs) = false ->
   hoist_target c lhs span acc0 p = (lhs', hoisted, p') ->
   mu lhs' + mul (a_assigns hoisted) = mu lhs /\ a_args hoisted = [].
 Proof.
-  unfold hoist_target.
+  intros NSM. unfold hoist_target.
   set (inner := if is_kind KParen lhs then peel_parens lhs else lhs).
   assert (I : mu inner = mu lhs).
   { unfold inner. destruct (is_kind KParen lhs); [apply ns_peel_parens | reflexivity]. }
   destruct (hoist_member c inner span acc0 p) as [[[t a] q]|] eqn:E.
-  - intros H; inversion H; subst. apply hoist_member_ns in E. destruct E as [X A].
+  - intros H; inversion H; subst. apply hoist_member_ns in E; [|exact NSM]. destruct E as [X A].
     unfold ns_acc in X. rewrite A in X. cbn [acc0 a_args a_assigns mul fold_right] in X.
     split; [lia | exact A].
   - intros H; inversion H; subst. split; [simpl; lia | reflexivity].
@@ -551,14 +604,16 @@ Qed.
 (** The compound assignment: one reference more, provided what remains of the target after
     hoisting (it is written twice) carries none. *)
 Theorem assign_transform_ns c lo hi opn lhs rhs p out p' :
+  okname (plus_name c) ->
+  is_ns_member (if is_kind KParen lhs then peel_parens lhs else lhs) = false ->
   mu opn = 0 -> ident_clean rhs ->
   (forall lhs' hoisted p0, hoist_target c lhs (lo, hi) acc0 p = (lhs', hoisted, p0) -> mu lhs' = 0) ->
   assign_transform c (Node (K KAssign lo hi) [opn; lhs; rhs]) p = (Some out, p') ->
   mu out = kappa + mu (Node (K KAssign lo hi) [opn; lhs; rhs]).
 Proof.
-  intros Hop Hr Hl. unfold assign_transform. destruct (is_pat_target lhs); [discriminate|].
+  intros OKN NSM Hop Hr Hl. unfold assign_transform. destruct (is_pat_target lhs); [discriminate|].
   destruct (hoist_target c lhs (lo, hi) acc0 p) as [[lhs' hoisted] p0] eqn:E.
-  pose proof (Hl _ _ _ eq_refl) as L0. apply hoist_target_ns in E. destruct E as [E A].
+  pose proof (Hl _ _ _ eq_refl) as L0. apply hoist_target_ns in E; [|exact NSM]. destruct E as [E A].
   set (right := if is_op bin_op "+" rhs then mk_paren (paren_span (span_of rhs)) rhs else rhs).
   assert (Rn : mu right = mu rhs).
   { unfold right. destruct (is_op bin_op "+" rhs); [apply ns_mk_paren | reflexivity]. }
@@ -566,7 +621,7 @@ Proof.
   { unfold right, ident_clean. destruct (is_op bin_op "+" rhs); [discriminate | exact Hr]. }
   unfold mk_bin, mk. cbn [fst snd].
   destruct (binary_transform c _ p0) as [[e'|] p1] eqn:B; [|discriminate].
-  apply binary_transform_ns in B; [| |exact Rc].
+  apply binary_transform_ns in B; [|exact OKN| |exact Rc].
   2:{ unfold ident_clean. rewrite ns_simple_target. intros _. exact L0. }
   intros H; inversion H; subst.
   rewrite (ns_node (K KBin lo hi)) in B by reflexivity. cbn [mul fold_right nS] in B.
@@ -604,9 +659,9 @@ Arguments ns_mk_call {stop kappa}.
 Arguments ns_acc0 {stop kappa}.
 Arguments ns_push_assign {stop kappa}.
 Arguments ns_push_arg {stop kappa}.
-Arguments ns_dd_callee {stop kappa}.
-Arguments ns_dd_call {stop kappa}.
-Arguments ns_dd_paren {stop kappa}.
+Arguments ns_dd_callee {stop kappa okname}.
+Arguments ns_dd_call {stop kappa okname}.
+Arguments ns_dd_paren {stop kappa okname}.
 Arguments get_temporal_ns {stop kappa}.
 Arguments get_ident_ns {stop kappa}.
 Arguments replace_default_ns {stop kappa}.
@@ -618,21 +673,21 @@ Arguments replace_expr_operand_ns {stop kappa}.
 Arguments replace_arg_ns {stop kappa}.
 Arguments replace_args_ns {stop kappa}.
 Arguments tpl_replace_ns {stop kappa}.
-Arguments binary_transform_ns {stop kappa}.
-Arguments template_transform_ns {stop kappa}.
+Arguments binary_transform_ns {stop kappa okname}.
+Arguments template_transform_ns {stop kappa okname}.
 Arguments replace_callee_and_args_ns {stop kappa}.
 Arguments ns_insert_this {stop kappa}.
-Arguments replace_with_member_ns {stop kappa}.
-Arguments replace_spread_ns {stop kappa}.
-Arguments replace_without_callee_ns {stop kappa}.
+Arguments replace_with_member_ns {stop kappa okname}.
+Arguments replace_spread_ns {stop kappa okname}.
+Arguments replace_without_callee_ns {stop kappa okname}.
 Arguments arg_plain_ns {stop kappa}.
-Arguments call_transform_ns {stop kappa}.
+Arguments call_transform_ns {stop kappa okname}.
 Arguments ns_simple_target {stop kappa}.
 Arguments hoist_key_ns {stop kappa}.
 Arguments hoist_member_ns {stop kappa}.
 Arguments ns_peel_parens {stop kappa}.
 Arguments hoist_target_ns {stop kappa}.
-Arguments assign_transform_ns {stop kappa}.
+Arguments assign_transform_ns {stop kappa okname}.
 
 (** ** Arrow normalisation adds no reference *)
 Lemma ns_node_nostop k t cs : plain (Node t cs) = true -> meas no_stop k (Node t cs) = meas_list no_stop k cs.
